@@ -1,6 +1,6 @@
 (* C09 — property theorems.  Nothing but statements, `exact`, Print Assumptions. *)
 From FwdLib Require Import Bytes.
-From G09 Require Import Tables H2Relay Ledger Check Term Obligations PairBasics PairWin.
+From G09 Require Import Tables H2Relay Ledger Check Term Obligations PairBasics PairWin PairMisc.
 Open Scope N_scope.
 
 (* The split loop of data() terminates for every payload whenever the peer's
@@ -39,3 +39,26 @@ Theorem T09_window_is_ledger :
     forall s, s <> 0 -> win_of (r_flow (toward x p)) s = led_window l s.
 Proof. exact (fun ds es dec enc dr er => window_is_ledger ds es dec enc dr er ob_emit_gate ob_emit_debits ob_settings_delta_not_on_connection). Qed.
 Print Assumptions T09_window_is_ledger.
+
+(* Every flow-controlled octet accepted from a sender (frame payload length: data, pad length octet and
+   padding) is credited back to it in the same step, on the stream and on the connection, and no other
+   WINDOW_UPDATE is ever sent (Ledger.credit_step, for every step of every history). *)
+Theorem T09_credit_returned :
+  forall (dstate estate : Type) dec enc dresize eresize (evs : list event) (p : pair dstate estate),
+    hist_wf evs -> credit_returned (snd (H2Relay.run dec enc dresize eresize p evs)) = true.
+Proof. exact (fun ds es dec enc dr er => credit_returned_run ds es dec enc dr er ob_credit_frame_length). Qed.
+Print Assumptions T09_credit_returned.
+
+(* processFrame returns for every frame of every history: the split loops of data() and splitIntoChunks
+   always have a positive step because validated SETTINGS keep MAX_FRAME_SIZE >= 16384. *)
+Theorem T09_no_divergence :
+  forall (dstate estate : Type) dec enc dresize eresize (evs : list event) (d1 : dstate) (e1 : estate) d2 e2,
+    no_divergence (snd (H2Relay.run dec enc dresize eresize (pair0 dstate estate d1 e1 d2 e2) evs)) = true.
+Proof. exact (fun ds es dec enc dr er => no_divergence_from_start ds es dec enc dr er ob_settings_validated ob_initial_max_frame_is_rfc). Qed.
+Print Assumptions T09_no_divergence.
+
+(* Why the validation matters: with MAX_FRAME_SIZE = 0 (accepted by the unrepaired code) the loop of
+   data() has no finite unfolding for any non-empty payload. *)
+Theorem T09_data_diverges_on_zero : forall fuel id d es, d <> [] -> data_pieces fuel 0 id d es = None.
+Proof. exact data_pieces_zero. Qed.
+Print Assumptions T09_data_diverges_on_zero.
